@@ -363,6 +363,12 @@ func c16(r *ev.Result, tier string) {
 		r.Distinct += len(cs)
 		mu.Unlock()
 	})
+	/* The converter the program keeps for Ctrl+I, over histories. */
+	depth := 4
+	if !quick {
+		depth = 5
+	}
+	c16Converters(r, base, depth)
 	/* Name derivation, statically. */
 	for _, n := range []string{"tool.pl", "my.tool.pl", "dir/sub/x.pl", "noext", "UPPER.PL.pl"} {
 		fn, err := shellfuncsfile.FromPerl(n, strings.NewReader("print 1;\n"))
@@ -380,6 +386,10 @@ func c16(r *ev.Result, tier string) {
 }
 
 func c16Replay(kind string, raw json.RawMessage) int {
+	if "c16conv" == kind {
+		fmt.Println("converter-history findings are replayed by re-running ./run C16 quick; the history is in the artefact (field shell)")
+		return 2
+	}
 	var c c16Case
 	if err := json.Unmarshal(raw, &c); nil != err {
 		return 2
